@@ -1071,12 +1071,18 @@ fn eq(lhs: &Value, rhs: &Value) -> StdResult<bool, (String, String, String)> {
                 return Ok(true);
             }
 
-            if lock_deref!(xs).len() != lock_deref!(ys).len() {
+            // We compare copies of the item lists so that no lock is held
+            // while recursing; the operands may share sub-structure, or
+            // contain one another.
+            let x_items = lock_deref!(xs).clone();
+            let y_items = lock_deref!(ys).clone();
+
+            if x_items.len() != y_items.len() {
                 return Ok(false);
             }
 
-            for (i, x) in lock_deref!(xs).iter().enumerate() {
-                let y = &lock_deref!(ys)[i];
+            for (i, x) in x_items.iter().enumerate() {
+                let y = &y_items[i];
 
                 let equal =
                     match eq(&x.v, &y.v) {
@@ -1101,14 +1107,19 @@ fn eq(lhs: &Value, rhs: &Value) -> StdResult<bool, (String, String, String)> {
                 return Ok(true);
             }
 
-            if lock_deref!(xs).len() != lock_deref!(ys).len() {
+            // We compare copies of the property maps so that no lock is held
+            // while recursing; the operands may share sub-structure, or
+            // contain one another.
+            let x_props = lock_deref!(xs).clone();
+            let y_props = lock_deref!(ys).clone();
+
+            if x_props.len() != y_props.len() {
                 return Ok(false);
             }
 
-            for (k, x) in &lock_deref!(xs) {
-                let ys = &lock_deref!(ys);
+            for (k, x) in &x_props {
                 let y =
-                    if let Some(y) = ys.get(k) {
+                    if let Some(y) = y_props.get(k) {
                         y
                     } else {
                         return Ok(false);
